@@ -172,7 +172,7 @@ func nontrivial(sc *Scenario, rr *RunResult) bool {
 
 func account(sc *Scenario, rr *RunResult, res *core.Result, run int) {
 	res.Steps += int64(rr.Steps)
-	res.SimNs += int64(rr.SimElapsed)
+	res.SimNs += float64(rr.SimElapsed)
 	for k, v := range rr.Faults {
 		res.Fault(k, v)
 	}
